@@ -175,6 +175,8 @@ Definition table_parse (loc : location) (st : option style) (ex : option bool) (
   | LCookie, Form, WSingle x => parse_simple e sh x
   | (LPath | LHeader), Simple, WSingle x => parse_simple e sh x
   | LPath, Label, WSingle x => parse_label e sh x
+  | LPath, Matrix, WSingle x => parse_matrix e name sh x
+  | LQuery, DeepObject, WPairs q => parse_query DeepObject true name sh q
   | _, _, _ => None
   end.
 
